@@ -31,6 +31,12 @@ TEXT["C14"] = ("Theorems: >, <=, >= are defined from < as the property states; e
                "(irreflexive, asymmetric, transitive, incomparability transitive) for every parameter list on both code paths, by a "
                "generic theorem that lexicographic comparison over a strict weak order is one; vector < on the element-wise path is the "
                "lexicographical comparison under element <. Correspondence: all operators, operand kinds, triples for transitivity.")
+TEXT["C15"] = ("Theorems over the dispatch model of detail/memory.hpp:82-130 and MEMCPY_COMPATIBLE: memcpy is chosen only for type pairs "
+               "whose conversion keeps the object representation (all representable values), so for every source form x type pair the "
+               "stored objects are T(item) item by item and exactly n are consumed; lvalue sources are never moved from; rvalue ranges and "
+               "move_iterators of non-trivially-copyable types are moved element-wise. Correspondence: the full matrix of 11 source forms x "
+               "39 type pairs x FixedSize/VaryingSize x lengths on the real emplace_back, printing the real trait values, the stored "
+               "representations, the source afterwards and copy/move counters next to the model's prediction, with a T(source) monitor.")
 NOTE = ("Trusted: Lean 4.33 kernel; axioms propext/Classical.choice/Quot.sound only (audited on every run); the correspondence "
         "harness, generator and runner; g++ 12.2 + ASan/UBSan. Modelled, not verified: allocator, value types, std algorithms, "
         "no size_t overflow, user preconditions (DESIGN.md §8).")
